@@ -63,6 +63,8 @@ pub struct GenOpts {
     pub adjacent_cmd_default_word: bool,
     /// `command(..).hide()`: a subcommand left out of the help is a subcommand all the same
     pub hidden_cmds: bool,
+    /// `command(..).optional().catch()`: an optional subcommand whose failures are recovered from
+    pub cmd_catch: bool,
 }
 
 impl GenOpts {
@@ -105,6 +107,7 @@ impl GenOpts {
             hidden_positionals: false,
             adjacent_cmd_default_word: false,
             hidden_cmds: false,
+            cmd_catch: false,
         }
     }
     pub fn general() -> GenOpts {
@@ -146,6 +149,7 @@ impl GenOpts {
             hidden_positionals: false,
             adjacent_cmd_default_word: false,
             hidden_cmds: false,
+            cmd_catch: false,
         }
     }
 }
@@ -1157,7 +1161,8 @@ impl<'a> Pool<'a> {
             }
             let a = Spec::Alt(cmds);
             let mut cf = if self.rng.chance(1, 4) {
-                Spec::wrap(W::Optional { catch: false }, self.id(), a)
+                let catch = self.o.cmd_catch && self.rng.chance(1, 2);
+                Spec::wrap(W::Optional { catch }, self.id(), a)
             } else if self.o.cmd_fallback && self.rng.chance(1, 3) {
                 let w = if self.rng.chance(1, 2) {
                     W::Fallback
